@@ -860,3 +860,54 @@ func EdgePos(r *R, n int) int {
 	}
 	return k
 }
+
+// BigCounts are member counts on both sides of, and exact multiples of, typical batch sizes.
+var BigCounts = []int{127, 128, 129, 255, 256, 257, 1023, 1024, 1025, 1152, 1280, 2047, 2048, 2049, 4096, 8192}
+
+// ManyMembers builds a multi-part geometry of kind k (KMultiPoint, KMultiLineString,
+// KPolygon, KMultiPolygon) with one of BigCounts members of 1-3 vertices each.
+func ManyMembers(r *R, k int, coord func(*R) float64) geom.Geom {
+	n := BigCounts[r.Intn(len(BigCounts))]
+	path := func() []geom.Point {
+		p := make([]geom.Point, r.IntRange(1, 3))
+		for i := range p {
+			p[i] = geom.Point{X: coord(r), Y: coord(r)}
+		}
+		return p
+	}
+	switch k {
+	case KMultiPoint:
+		p := make(geom.MultiPoint, n)
+		for i := range p {
+			p[i] = geom.Point{X: coord(r), Y: coord(r)}
+		}
+		return p
+	case KMultiLineString:
+		m := make(geom.MultiLineString, n)
+		for i := range m {
+			m[i] = path()
+		}
+		return m
+	case KPolygon:
+		m := make(geom.Polygon, n)
+		for i := range m {
+			m[i] = path()
+		}
+		return m
+	default:
+		m := make(geom.MultiPolygon, 0, n)
+		if r.Bool() { // many polygons of one ring
+			for i := 0; i < n; i++ {
+				m = append(m, geom.Polygon{path()})
+			}
+		} else { // few polygons, one of them with many rings
+			m = append(m, geom.Polygon{path()})
+			pg := make(geom.Polygon, n)
+			for i := range pg {
+				pg[i] = path()
+			}
+			m = append(m, pg, geom.Polygon{path(), path()})
+		}
+		return m
+	}
+}
